@@ -16,6 +16,7 @@ import (
 //	scn 2  output piped through the supervisor (what rapid does): main released; is the event delivered
 //	       once main is gone? then Kill(name, +2s)
 //	scn 3  as 2, but main is ended by Terminate and the child ignores TERM
+//	scn 4  as 2, but main exits with status 0 (the event, whenever it comes, must say 0)
 func orphanCase(c *caseRun, scn int) {
 	kind, out := "fork", "null"
 	if scn >= 2 {
@@ -25,11 +26,14 @@ func orphanCase(c *caseRun, scn int) {
 		kind = "forkign"
 	}
 	p := &proc{name: 1, kind: kind, code: 4, out: out}
+	if scn == 4 {
+		p.code = 0
+	}
 	ret := c.startProc(p, "")
 	c.tw.Comment("scenario %d: Exec(name 1, /bin/sh -c %q, fd 3 = pipe held by the harness, StdoutWriter/StderrWriter: %s)", scn, c.script(p),
 		map[string]string{"null": "nil", "pipe": "an io.Writer that is not an *os.File, as rapid passes"}[out])
 	c.tw.Comment("  then: %s; wait until /proc says the started process is gone; wait 3 s for its event; Kill(name 1, deadline %s); look at its process group",
-		map[bool]string{true: "Terminate(name 1)", false: "close the pipe (the process runs `exit 4`)"}[scn == 3],
+		map[bool]string{true: "Terminate(name 1)", false: "close the pipe (the process runs `exit <code>`)"}[scn == 3],
 		map[bool]string{true: "25 s ahead", false: "2 s ahead"}[scn == 1])
 	c.fact("call k=exec name=1 p=%d ret=%s t0=%s t1=%s", p.idx, ret, us(p.execT0), us(p.execT1))
 	if ret != "ok" || waitMarker(p.marker+".pid", markerGrace) == 0 || waitMarker(p.marker+".child", markerGrace) == 0 {
